@@ -7,7 +7,7 @@ import (
 	"verif/harness/spec"
 )
 
-var vopts = gen.ValOpts{Null: true, Unknown: true, Marks: true, NoInf: true, Simple: true, MaxElems: 3}
+var vopts = gen.ValOpts{Null: true, Unknown: true, Marks: true, NoInf: true, Simple: true, MaxElems: 3, Long: 28}
 
 var attrPool = []string{"a", "b", "c", "id", "\u00e9", "e\u0301", "name", "x"}
 
